@@ -5,7 +5,7 @@ From Coq Require Import Reals ZArith List Bool Lra Lia.
 From PyLib Require Import PyVal PyBuiltins Ideal IdealFacts Whnf PyEval.
 From Spec Require Import AngleSpec.
 From Gen Require Import M_base M_Angle M_Epoch M_Coordinates.
-From Proofs.C07 Require Import C07_defs C07_angle.
+From Proofs.C07 Require Import C07_defs C07_angle C07_sec.
 Import ListNotations.
 Open Scope R_scope.
 
@@ -15,7 +15,7 @@ Ltac2 Set Whnf.is_blocked as old := fun c =>
      '@Angle___sub__; '@Angle___iadd__; '@Angle___add__]).
 
 (* object-level forms of the Angle lemmas (what the evaluator meets) *)
-Lemma init_sec_obj s : -60 < s < 60 ->
+Lemma init_sec_obj s : -3600 < s < 60 ->
   Angle___init__ Rops (VObj cAngle [VNone; VNone]) (VTuple [VInt 0; VInt 0; VFloat s]) (VDict [])
   = VObj cAngle [VFloat (s / 3600); VFloat tol0].
 Proof. exact (init_sec s). Qed.
@@ -46,18 +46,20 @@ Lemma fk5_b_bound x : -60 < Rlit 3916 (-5) * (cos x - sin x) < 60.
 Proof.
   pose proof (COS_bound x). pose proof (SIN_bound x). Rlit_norm. split; lra.
 Qed.
-Lemma aberr_bound r : 35 / 100 <= r -> -60 < Rlit (-204898) (-4) / r < 60.
+Lemma aberr_bound r : 1 / 100 <= r -> -3600 < Rlit (-204898) (-4) / r < 60.
 Proof.
   intro H. Rlit_norm. assert (0 < r) by lra.
-  assert (0 < / r <= 100 / 35) as [I1 I2].
+  assert (0 < / r <= 100) as [I1 I2].
   { split; [apply Rinv_0_lt_compat; lra|].
-    replace (100 / 35) with (/ (35 / 100)) by field. apply Rinv_le_contravar; lra. }
+    replace 100 with (/ (1 / 100)) by field. apply Rinv_le_contravar; lra. }
   unfold Rdiv. split; nra.
 Qed.
+Lemma wide x : -60 < x < 60 -> -3600 < x < 60.
+Proof. lra. Qed.
 
 Ltac sec_bound :=
-  first [ apply fk5_a_bound; assumption | apply fk5_b_bound | apply aberr_bound; assumption
-        | expose_R; split; pylra ].
+  first [ apply wide; apply fk5_a_bound; assumption | apply wide; apply fk5_b_bound
+        | apply aberr_bound; assumption | expose_R; split; pylra ].
 
 Ltac py_user_rw tac ::=
   first [ rewrite init_sec_obj by sec_bound | rewrite iadd_obj | rewrite sub_float_obj
@@ -166,8 +168,8 @@ Variables (jde lon lat r dpsi : R) (L B Rr : list rval).
 Hypothesis Hgeo : f_geometric_vsop_pos Rops (ep jde) (VList L) (VList B) (VList Rr) (VBool true)
                   = VTuple [ang lon; ang lat; VFloat r].
 Hypothesis Hnut : f_nutation_longitude Rops (VTuple [ep jde]) (VDict []) = ang dpsi.
-(* radius at least 0.35 AU keeps 20.4898''/r below one minute of arc (simple branch of Angle(0,0,s)) *)
-Hypothesis Hr : 35 / 100 <= r.
+(* radius at least 0.01 AU keeps 20.4898''/r below one degree (branches of Angle(0,0,s) covered by C07_sec) *)
+Hypothesis Hr : 1 / 100 <= r.
 
 Theorem apparent_no_nutation :
   f_apparent_vsop_pos Rops (ep jde) (VList L) (VList B) (VList Rr) (VBool false) =
